@@ -201,6 +201,11 @@ impl<D: DataT, E: FromBoxError> MultipartStream<D, E> {
 #[verifier::reject_recursive_types(E)]
 //@item src/body.rs :: struct Body rules=T_stream,R1
 
+/// String::into_bytes (assumed std contract): the string's UTF-8 bytes.
+pub uninterp spec fn string_bytes(s: String) -> Seq<u8>;
+pub assume_specification[ String::into_bytes ](s: String) -> (r: Vec<u8>)
+    ensures r@ == string_bytes(s);
+
 /// Bytes a body will still deliver if it ends cleanly, as far as this crate controls it (C12).
 spec fn owed_bytes<D: DataT, E: FromBoxError>(b: BodyStream<D, E>) -> int {
     match b {
@@ -296,6 +301,18 @@ impl<D: DataT, E: FromBoxError> Body<D, E> {
     //@fn src/body.rs :: impl From for Body #1 :: fn from as=from_static_bytes props=C01,C12
     fn from_static_bytes(value: &'static [u8]) -> (r: Self)
         ensures /*@C01,C12 #from_static_bytes*/ r.0 matches BodyStream::Once(Some(Ok(d))) && d.bytes() == value@,
+    //@body
+    //@end
+
+    //@fn src/body.rs :: impl From for Body #2 :: fn from as=from_static_str props=C12
+    fn from_static_str(value: &'static str) -> (r: Self)
+        ensures /*@C12 #from_static_str_is_one_frame*/ r.0 matches BodyStream::Once(Some(Ok(_))),
+    //@body
+    //@end
+
+    //@fn src/body.rs :: impl From for Body #4 :: fn from as=from_string props=C12
+    fn from_string(value: String) -> (r: Self)
+        ensures /*@C12 #from_string_is_one_frame*/ r.0 matches BodyStream::Once(Some(Ok(d))) && d.bytes() == string_bytes(value),
     //@body
     //@end
 
